@@ -39,7 +39,7 @@ def seeded_table():
         keys = '; '.join(re.sub(r'^\[[^\]]*\] ', '', k).split(':  ')[0].split(': ')[0][:70] for k in j['check'].get('first_keys', [])[:2]).replace('|', '\\|')
         hist = ', '.join('missed' if h.get('detected') is False else 'caught' for h in j.get('history', [])) or '-'
         rows.append(f"| {name} | {j['property']} | {summ} | {j['repo_tests_with_patch'].split(',')[0]} | exit {j['demo_without_patch']['exit']} -> {j['demo_with_patch']['exit']} | "
-                    f"{'caught (exit 1)' if j['detected'] else 'MISSED (exit %s)' % j['check']['exit']} | {keys} | {hist} |")
+                    f"{('caught (exit 1)' if j['detected'] else 'MISSED (exit %s)' % j['check']['exit']) if j.get('confirmed', True) else 'n/a: no longer breaks the property on the repaired tree'} | {keys} | {hist} |")
     return '\n'.join(rows)
 
 
